@@ -196,7 +196,10 @@ def run(ctx):
                        "on the specification only"]
     deep = "Layout_deep_quick.cfg" if ctx.tier == "quick" else "Layout_deep_thorough.cfg"
     run_cfg(ctx, "Layout", "Layout_flat.cfg", worker, "flat")
-    run_cfg(ctx, "Layout", deep, worker, "deep")
+    # (three nesting steps give 1.5 * 10^6 types; every other one is materialised in the thorough tier)
+    run_cfg(ctx, "Layout", deep, worker, "deep", mk=lambda blocks: [(b, ctx.seed) for b in blocks if ctx.tier == "quick" or core.sampled(b, 2)])
+    if ctx.tier != "quick":
+        ctx.exhaustive = False
     def mk(blocks):
         out = []
         for b in blocks:
